@@ -2,6 +2,7 @@
     Property theorems only. *)
 From Coq Require Import ZArith List Bool.
 From CV Require Import Geom.Winding Bool.Region Bool.Sweep Bool.SweepProofs Bool.Check Bool.MergeOrder Bool.MergeOrderProofs.
+From CV Require Import Stroke.Dist.
 Import ListNotations.
 Open Scope Z_scope.
 
@@ -65,3 +66,10 @@ Theorem C02_settle_merge_any_order : forall segs ks rule,
   col_spec_ok_ov [] (mscan_seq (propagate segs 0 rule) ks 0 rule) 0 rule = true.
 Proof. exact settle_merge_any_order. Qed.
 Print Assumptions C02_settle_merge_any_order.
+
+(** the guard of the sample oracle means what it says: a guarded sample is at squared distance at least g2 from EVERY point
+    a + (sn/sd)(b-a), 0 <= sn <= sd, of the edge (scaled by sd^2 to stay in Z) *)
+Theorem C02_guard_is_distance : forall p a b g2 sn sd, (0 < sd)%Z -> (0 <= sn <= sd)%Z ->
+  far_seg p a b g2 = true -> (g2 * (sd * sd) <= sdist2 p a b sn sd)%Z.
+Proof. exact far_seg_sound. Qed.
+Print Assumptions C02_guard_is_distance.
